@@ -237,51 +237,37 @@ class DBStorage(BaseStorage):
             )
             result = await conn.execute(query)
 
-            delete_id = None
+            delete_ids = []
             if event.is_paramaterized_replaceable:
                 # according to nip-33, an event with a matching "d" tag will be replaced
                 # empty tags include [], [["d"]], and [["d", ""]]
-                d_tag = ""
-                for tag in event.tags:
-                    if tag[0] == "d":
-                        if len(tag) > 1:
-                            d_tag = tag[1]
-                        break
+                d_tag = self._get_d_tag(event.tags)
                 for old_id, created_at, tags in result:
-                    found_tag = [tag for tag in tags if tag[0] == "d"]
-                    if not d_tag:
-                        if (
-                            not found_tag
-                            or len(found_tag[0]) == 1
-                            or found_tag[0][1] == ""
-                        ):
-                            delete_id = old_id
-                            old_ts = created_at
-                            break
-                    else:
-                        tag = found_tag[0]
-                        if len(tag) > 1 and tag[1] == d_tag:
-                            delete_id = old_id
-                            old_ts = created_at
-                            break
-
+                    if self._get_d_tag(tags) == d_tag:
+                        delete_ids.append(old_id)
             else:
-                row = result.first()
-                if row:
-                    delete_id = row[0]
-                    old_ts = row[1]
-            if delete_id:
+                delete_ids = [row[0] for row in result]
+            for delete_id in delete_ids:
                 self.log.info(
-                    "Replacing event %s from %s@%s with %s",
+                    "Replacing event %s from %s with %s",
                     delete_id,
                     event.pubkey,
-                    old_ts,
                     event.id,
                 )
                 await conn.execute(
                     self.EventTable.delete().where(self.EventTable.c.id == delete_id)
                 )
         return True
+
+    @staticmethod
+    def _get_d_tag(tags):
+        """
+        Return the value of the first "d" tag; missing, ["d"] and ["d", ""] are all ""
+        """
+        for tag in tags or []:
+            if tag[0] == "d":
+                return tag[1] if len(tag) > 1 else ""
+        return ""
 
     async def process_tags(self, conn, event):
         if event.tags:
